@@ -9,7 +9,7 @@ Extraction "mtbl_model.ml"
   varint_length varint_length_packed varint_encode32 varint_encode64
   varint_decode32 varint_decode64 fixed_encode32 fixed_encode64 fixed_decode32 fixed_decode64
   bcmp sep lcp is_prefix crc32c_ref crc_slicing crc_sse42
-  writer_session writer_init writer_add writer_finish writer_chunks writer_bytes clamp_block_size metadata_read metadata_write
+  writer_session writer_init writer_add writer_finish writer_chunks writer_bytes clamp_block_size clamp_restart_interval metadata_read metadata_write
   write_chunks write_all error_met
   frun fs_init fstate_after fileset_partition parity_cb ledger footprint lrun rrun obs heap_live wf_history all_destroyedb oc_default rl_none
   pool_init pstep pspurious enabled_set gett prog_wf prog_wf_weak wake_fairb sched_fairb terminalb
